@@ -6843,6 +6843,9 @@ class SFTPServerHandler(SFTPHandler):
                     await result
 
                 if not data:
+                    if not read_to_end:
+                        raise SFTPEOFError
+
                     break
 
                 read_from_offset += len(data)
